@@ -89,12 +89,9 @@ def args_status(signable, authorized, threshold, gpg=False):
         rs.append(schema.G if isinstance(authorized, list) else schema.R)
     else:
         rs.extend(schema.hex_key(k) for k in authorized)
-    if type(threshold) is int:
-        rs.append(schema.A if threshold >= 1 else schema.R)
-    elif isinstance(threshold, int):  # bool or subclass
-        rs.append(schema.G if threshold >= 1 else schema.R)
-    else:
-        rs.append(schema.R)
+    # positive integer; integral non-int numerics (True, 2.0, Decimal(2)) are a grey zone; NaN, infinities,
+    # fractions, strings ... are malformed
+    rs.append(schema.natural_int(threshold))
     if gpg is True or gpg is False:
         pass
     else:
